@@ -104,9 +104,12 @@ func (f *BasicTombstoneFilter) ShouldKeep(key, value []byte) bool {
 
 	// For tombstones (value == nil):
 
-	// If we have a tracker, use it to determine if the tombstone is still needed
-	if f.tracker != nil {
-		return f.tracker.ShouldKeepTombstone(key)
+	// If we have a tracker, it can tell us that the tombstone is still needed.
+	// The tracker only knows the deletions this process saw through it (not
+	// those made before a restart or inside transactions), so not knowing a
+	// key is no reason to drop its tombstone
+	if f.tracker != nil && f.tracker.ShouldKeepTombstone(key) {
+		return true
 	}
 
 	// Otherwise use level-based heuristic
